@@ -177,6 +177,10 @@ def run_case(case):
         classes.add("regrid")
         try:
             yad.Runner(th, cards.observables({name: [dict(x=0.5, Q2=pts[0]["Q2"])]}, xgrid=cards.warp_grid(g["xgrid"]), deg=g["deg"], is_log=g["is_log"], **case["obs"])).get_result()
+            # ... and on the very same nodes in the other interpolation mode and with another degree
+            yad.Runner(th, cards.observables({name: [dict(x=0.5, Q2=pts[0]["Q2"])]}, xgrid=g["xgrid"], deg=g["deg"], is_log=not g["is_log"], **case["obs"])).get_result()
+            if len(g["xgrid"]) > g["deg"] + 2:
+                yad.Runner(th, cards.observables({name: [dict(x=0.5, Q2=pts[0]["Q2"])]}, xgrid=g["xgrid"], deg=g["deg"] + 1 if g["deg"] < 4 else g["deg"] - 1, is_log=g["is_log"], **case["obs"])).get_result()
         except ValueError:
             pass
     cf.Combiner.collect_elems = spy
